@@ -499,7 +499,9 @@ MANIFEST = dict(
     'any behaviour of the function objects): calling the old name = emitting the warning, then exactly the call of the new name (alias_is_warning_then_new); '
     'warnings.warn leaves filters, default action and the rest untouched and delivers at most that one warning (warn_touches_only_the_warning_log); a user\'s '
     'ignore / error setting is obeyed (warn_ignored, warn_error, alias_under_ignore_is_new, alias_under_error_raises, alias_raise_switch); a helper forcing '
-    'the display is observable (forced_display_is_observable). The keyword wrapper hands the callee the arguments written under the current names with one '
+    'the display is observable (forced_display_is_observable). Argument dimension (Sig / sigAccepts = Signature.bind): the old name accepts exactly the '
+    'calls the replacement RESOLVED ON THE RECEIVER accepts, whatever the overrides do to the signature (alias_accepts_iff_resolved_accepts); a wrapper '
+    'binding the arguments to the captured signature first is refuted (precheck_on_captured_signature_is_wrong). The keyword wrapper hands the callee the arguments written under the current names with one '
     'warning per obsolete spelling (rename_old_equals_new, rename_new_is_identity, rename_ignored) in an otherwise unchanged process '
     '(warnMany_touches_only_the_warning_log, kw_is_warnings_then_call, kw_current_names_silent); lifting lemma table_sound. Translator: '
     'lean/Generated/Aliases.lean is rewritten on every run from the live package (146 classes, 120 alias definitions, 656 slots, 19 keyword maps) with '
@@ -512,6 +514,10 @@ MANIFEST = dict(
     'hand (BIOGEME.numberOfThreads/numberOfDraws/generatePickle/freeBetaNames/loglike properties, any undecorated function) found by their spelling on live '
     'receivers, read and written against their replacement; the wrapper model against the real decorators on structured hierarchies (all chains of depth 3-5 '
     'with every subset of levels redefining the replacement, every level as receiver; diamonds) and random ones; the state-transformer model against the '
+    'generated hierarchies whose replacements have real signatures widened / narrowed / reordered by the overrides, called with 0-3 positional and keyword '
+    'subsets (accepted or TypeError on both sides, same binding; Lean op accepts); every slot also called in the other argument forms generated from the '
+    'signature of the replacement resolved on the receiver (defaults omitted, all by keyword, all by position, obsolete keyword spellings of its '
+    'deprecated_parameters map); '
     'real wrappers inside generated user warning configurations (6 actions, categories, message patterns, repeated calls from one place, RAISE_EXCEPTION).',
     design='DESIGN.md §5 C20',
     technique='Lean 4 theorems over a dispatch model and a process-state model + table regenerated from the live package with kernel-checked obligations + '
@@ -1531,6 +1537,8 @@ def run_slot_call(T_by, R, s, recv_label, spec, seed, mark=None, sides=('old', '
                     else:
                         target = getattr(sys.modules[cls_entry['obj'].__module__], s['want'])
                 args, kwargs = builder(env, recv)
+            except _SameForm:
+                return {'old': {'no_such_form': True}, 'new': {'no_such_form': True}}
             except Exception as e:  # noqa: BLE001  (the receiver / the arguments cannot be built: same on both sides)
                 outs[side] = {'exc': 'setup ' + core.exc_kind(e), 'exc_text': mask_text(str(e))[:160], 'dep': [], 'other_warnings': [], 'state': None,
                               'args_after': None, 'setup_failed': True}
@@ -1556,9 +1564,87 @@ def run_slot_call(T_by, R, s, recv_label, spec, seed, mark=None, sides=('old', '
     return outs
 
 
-def specs_for(s):
+class _SameForm(Exception):
+    """the requested argument form does not exist for this call (or is the call already made)"""
+
+
+ENGINE_FUNCS = ('get_value_c', 'get_value_and_derivatives', 'create_function')
+
+
+def resolved_replacement(s, recv):
+    """the function the new name designates ON THE RECEIVER (never the one the wrapper captured), and whether it takes the receiver"""
+    if s['is_module']:
+        return vars(sys.modules[s['cls'].replace('module:', '')])[s['want']], False
+    if s['want_kind'] == 'module':
+        return vars(sys.modules[type(recv).__module__])[s['want']], False
+    static = inspect.getattr_static(type(recv), s['want'])
+    return raw_function(static), not isinstance(static, staticmethod)
+
+
+def argument_form(form, s, recv, args, kwargs):
+    """another way of writing the same call, generated from the signature of the replacement resolved on the receiver:
+    'minimal' (every argument that has a default is left out), 'keywords' (everything by keyword), 'positional' (everything by
+    position), 'oldkw' (the keywords the replacement still accepts under an obsolete spelling are written with that spelling)"""
+    f, takes_recv = resolved_replacement(s, recv)
+    try:
+        sig = inspect.signature(f)
+        ba = sig.bind(*(((recv,) if takes_recv else ()) + tuple(args)), **kwargs)
+    except (TypeError, ValueError):
+        raise _SameForm() from None
+    params = list(sig.parameters.values())[1 if takes_recv else 0:]
+    if any(p.kind in (p.VAR_POSITIONAL, p.POSITIONAL_ONLY) for p in params):
+        raise _SameForm()
+    given = [(p, ba.arguments[p.name]) for p in params if p.name in ba.arguments and p.kind != p.VAR_KEYWORD]
+    extra = dict(ba.arguments.get(next((p.name for p in params if p.kind == p.VAR_KEYWORD), ''), {}) or {})
+    n_pos = len(args)
+    if form == 'minimal':
+        keep = [(p, v) for p, v in given if p.default is p.empty]
+        new_args = tuple(v for p, v in keep if params.index(p) < n_pos)
+        if len(new_args) != sum(1 for p in params[:len(new_args)] if p.default is p.empty):
+            raise _SameForm()
+        out = (new_args, {p.name: v for p, v in keep if params.index(p) >= n_pos})
+    elif form == 'keywords':
+        out = ((), {**{p.name: v for p, v in given}, **extra})
+    elif form == 'positional':
+        names = [p.name for p, _ in given]
+        if names != [p.name for p in params[:len(names)]] or extra or any(p.kind == p.KEYWORD_ONLY for p, _ in given):
+            raise _SameForm()
+        out = (tuple(v for _, v in given), {})
+    elif form == 'oldkw':
+        w_, cells = find_params_wrapper(f)
+        inverse = {n: o for o, n in (cells['obsolete_params'].items() if w_ else []) if n}
+        first = next((k for k, (p, _) in enumerate(given) if p.name in inverse), None)
+        if first is None:
+            raise _SameForm()
+        keep_pos = min(n_pos, first)
+        out = (tuple(v for _, v in given[:keep_pos]), {**{inverse.get(p.name, p.name): v for p, v in given[keep_pos:]}, **extra})
+    else:
+        raise _SameForm()
+    if (tuple(out[0]), dict(out[1])) == (tuple(args), dict(kwargs)) and list(out[1]) == list(kwargs):
+        raise _SameForm()
+    return out
+
+
+def specs_for(s, seed=0, all_forms=False):
+    """the argument tuples of a slot: the hand-written ones, then the same calls written in the other forms the RECEIVER's replacement
+    accepts (defaults omitted, by keyword, by position, obsolete keyword spellings); a form that does not exist for a call is skipped
+    when the call is about to be made"""
     owner_q = s['owner'] if not s['is_module'] else s['cls'].replace('module:', '')
-    return arg_specs(owner_q if s['is_module'] else s['cls'] if is_expression_class(s['cls']) else s['owner'], s['want'], s['is_module'])
+    base = arg_specs(owner_q if s['is_module'] else s['cls'] if is_expression_class(s['cls']) else s['owner'], s['want'], s['is_module'])
+    out = list(base)
+
+    def derived(spec, form):
+        label, builder, post, variant = spec
+        return (label + ' / ' + form, lambda e, r: argument_form(form, s, r, *builder(e, r)), post, variant)
+
+    engine = (not s['is_module']) and is_expression_class(s['cls']) and s['want'] in ENGINE_FUNCS
+    rotate = all_forms or (sum(map(ord, s['cls'] + s['old'])) + seed) % 4 == 0
+    for k, spec in enumerate(base):
+        if spec[0] in ('out of context', 'out of context kw', 'no database'):
+            continue
+        forms = ['oldkw'] + ([] if engine or k > 0 else ['minimal'] + (['keywords', 'positional'] if rotate else []))
+        out += [derived(spec, f) for f in forms]
+    return out
 
 
 def worker(payload):
@@ -1593,7 +1679,7 @@ def worker(payload):
         elif not s['is_module'] and not s['receivers']:
             entry['skipped'] = 'no instance: ' + NO_INSTANCE.get(s['cls'], 'NO FACTORY')
         else:
-            specs = specs_for(s)
+            specs = specs_for(s, payload['seed'], bool(payload.get('twice_all')))
             if not specs:
                 entry['skipped'] = 'NO ARGUMENT SPEC'
             for ri, rl in enumerate(s['receivers']):
@@ -1604,6 +1690,10 @@ def worker(payload):
                         continue
                     twice = bool(payload.get('twice_all')) or (i + payload['seed']) % 3 == 0
                     outs = run_slot_call(T_by, R, s, rl, spec, payload['seed'] + si, mark=lambda side: emit({'about': [i, ri, si, side]}), twice=twice)
+                    if outs['old'].get('no_such_form'):
+                        continue
+                    if ' / ' in spec[0]:
+                        entry['forms'] = entry.get('forms', []) + [spec[0].rsplit(' / ', 1)[1]]
                     if twice and all('second' in o for o in outs.values()):
                         entry['second_calls'] = entry.get('second_calls', 0) + 1
                     if any(o.get('poisoned') for o in outs.values()):
@@ -1654,7 +1744,7 @@ def isolated_single(payload):
     S = slot_list(T)
     i, ri, si = payload['at']
     s = S[i]
-    spec = specs_for(s)[si]
+    spec = specs_for(s, payload['seed'], bool(payload.get('all_forms')))[si]
     outs = run_slot_call(T_by, R, s, s['receivers'][ri], spec, payload['seed'] + si, sides=(payload['side'],))
     return outs[payload['side']]
 
@@ -2039,6 +2129,37 @@ def override_kind(case, call):
     return 'both' if leaf and mid else 'leaf' if leaf else 'intermediate' if mid else 'none'
 
 
+# signatures of the generated replacements (after self): source, parameters (name, has a default), *args?, **kwargs?
+SIGS = {
+    'base': ('x, y=1', [('x', False), ('y', True)], False, False),
+    'wide': ('x=0, y=1, z=2', [('x', True), ('y', True), ('z', True)], False, False),
+    'narrow': ('x', [('x', False)], False, False),
+    'reorder': ('y=1, x=0', [('y', True), ('x', True)], False, False),
+    'two': ('x, y', [('x', False), ('y', False)], False, False),
+    'kwsink': ('x, **k', [('x', False)], False, True),
+    'var': ('*a, **k', [], True, True),
+}
+SIG_NAMES = {'x': 1, 'y': 2, 'z': 3, 'p': 4}
+
+
+def sig_cases(rng, n):
+    """hierarchies whose replacements have real signatures that the overrides widen / narrow / reorder, called with every kind of
+    argument form (0-3 positional arguments, keyword subsets)"""
+    chains = chain_cases()
+    out = []
+    for j in range(n):
+        base = chains[j % len(chains)] if j < 2 * len(chains) else gen_hierarchy(rng)
+        classes = [dict(c, alias=(dict(c['alias'], static=False) if c['alias'] else None)) for c in base['classes']]
+        sigs = [rng.choice(['base', 'base', 'wide', 'narrow', 'reorder', 'two', 'kwsink', 'var']) for _ in classes] + [rng.choice(['base', 'var'])]
+        calls = []
+        for _ in range(3):
+            kw = rng.sample(['x', 'y', 'z', 'p'], rng.choice([0, 0, 1, 1, 2]))
+            calls.append({'cls': rng.randrange(len(classes)), 'args': [rng.randint(0, 9) for _ in range(rng.choice([0, 0, 1, 1, 2, 3]))],
+                          'kwargs': {k: rng.randint(0, 9) for k in kw}, 'via': 'instance'})
+        out.append({'classes': classes, 'calls': calls, 'sigs': sigs})
+    return out
+
+
 def build_hierarchy(case):
     """real classes with the real decorator; returns (classes, impl ids, model table, captured function per declaring class) or None
     when python refuses the bases.  What each alias captures is recorded HERE, when the decorator is applied - never read back from
@@ -2047,28 +2168,36 @@ def build_hierarchy(case):
 
     impl = {}
 
-    def mk(tag):
-        def f(*a, **k):
-            return (tag, a, dict(k))
-
+    def mk(tag, sig=None):
+        if sig is None:
+            def f(*a, **k):
+                return (tag, a, dict(k))
+        else:
+            # a function with a real signature: returns what its parameters were bound to
+            scope = {}
+            exec(f'def f(self, {SIGS[sig][0]}):\n    d = dict(locals()); d.pop("self"); return (TAG, (self,), d)', {'TAG': tag}, scope)
+            f = scope['f']
         f.__name__ = 'get_thing'
         impl[id(f)] = (len(impl) + 10, f, tag)
+        sig_of[impl[id(f)][0]] = sig
         return f
 
-    mod_fn = mk('module.get_thing')
+    sig_of = {}
+    sigs = case.get('sigs')
+    mod_fn = mk('module.get_thing', sigs[-1] if sigs else None)
     built = []
     captured_by = {}
     for i, c in enumerate(case['classes']):
         ns = {}
         if c['new']:
-            ns['get_thing'] = mk(f'K{i}.get_thing')
+            ns['get_thing'] = mk(f'K{i}.get_thing', sigs[i] if sigs else None)
         a = c['alias']
         if a:
             if a['captures'] == 'own' and 'get_thing' in ns:
                 target = ns['get_thing']
             elif a['captures'] == 'rebound' and 'get_thing' in ns:
                 target = ns['get_thing']
-                ns['get_thing'] = mk(f'K{i}.get_thing(rebound)')
+                ns['get_thing'] = mk(f'K{i}.get_thing(rebound)', sigs[i] if sigs else None)
             elif a['captures'] == 'base':
                 base_cls = built[a['base']]
                 target = None
@@ -2102,6 +2231,7 @@ def build_hierarchy(case):
         if 'getThing' in vars(k):
             d.append([2, 1000 + ids[k]])
         table.append({'id': ids[k], 'mro': [ids[x] for x in k.__mro__ if x is not object], 'dict': d})
+    case['_sig_of'] = sig_of
     return built, impl, table, captured_by
 
 
@@ -2191,7 +2321,7 @@ class _Capped:
 def judge_hierarchy_call(res, case, o):
     """the property on one call of a generated hierarchy, from the statement alone (no model): same function, same arguments, one
     warning naming the replacement, nothing else left behind"""
-    what = {'hierarchy': {k: v for k, v in case.items() if k != 'shape'}, 'call': o['call']}
+    what = {'hierarchy': {k: v for k, v in case.items() if k not in ('shape', '_sig_of')}, 'call': o['call']}
     o_old, o_new = o['old'], o['new']
     W = 'deprecated.deprecated wrapper'
     if 'exc' in o_old:
@@ -2204,7 +2334,7 @@ def judge_hierarchy_call(res, case, o):
             res.violate('an inherited alias does not behave like the new name on the receiver (generated class hierarchy; replacement redefined at: '
                         + o['override'] + ')', what,
                         {k: o_old.get(k) for k in ('impl', 'args', 'kwargs')}, {k: o_new.get(k) for k in ('impl', 'args', 'kwargs', 'exc')}, where=W)
-    if not o['static'] and o['with_recv'] and (o_old['kwargs'] != o['call']['kwargs'] or [x for x in o_old['args'] if x != '<recv>'] != o['call']['args']):
+    if not case.get('sigs') and not o['static'] and o['with_recv'] and (o_old['kwargs'] != o['call']['kwargs'] or [x for x in o_old['args'] if x != '<recv>'] != o['call']['args']):
         res.violate('the wrapper does not pass the arguments on unchanged', what, {'args': o_old['args'], 'kwargs': o_old['kwargs']},
                     {'args': o['call']['args'], 'kwargs': o['call']['kwargs']}, where=W)
     if o_old['dep'] != [ALIAS_MSG]:
@@ -2257,6 +2387,36 @@ def check_wrapper_model(ctx, res, n):
                 continue
             if o_old.get('impl') != want_impl:
                 res.diverge('wrapper on a generated hierarchy: implementation that runs', what, want_impl, o_old, where='deprecated.deprecated wrapper')
+
+    ctx.batch.add_many(reqs, cb)
+
+
+def check_signature_model(ctx, res, n):
+    """the ARGUMENT dimension on generated hierarchies: the old name accepts exactly the calls the replacement resolved on the receiver
+    accepts (Lean: aliasAccepts / newAccepts over `Sig`), and binds them identically"""
+    reqs, obs = [], []
+    capped = _Capped(res)
+    for case in sig_cases(ctx.rng, n):
+        b = build_hierarchy(case)
+        if b is None:
+            continue
+        sig_of = case.pop('_sig_of')
+        sigs_json = [{'impl': i, 'params': [[SIG_NAMES[nm], d] for nm, d in SIGS[sg][1]], 'var_pos': SIGS[sg][2], 'var_kw': SIGS[sg][3]} for i, sg in sig_of.items()]
+        for o in hierarchy_calls(case, b, res):
+            judge_hierarchy_call(capped, case, o)
+            call = o['call']
+            res.tally('signature_call:' + ('refused_by_both' if 'exc' in o['old'] and 'exc' in o['new'] else 'accepted' if 'exc' not in o['old'] else 'other'))
+            reqs.append({'op': 'accepts', 'classes': b[2], 'c': call['cls'], 'new': 1, 'captured': o['captured'], 'sigs': sigs_json, 'npos': len(call['args']),
+                         'kws': [SIG_NAMES[k] for k in call['kwargs']]})
+            obs.append((case, o))
+        res.count({'signatures': case}, nontrivial=len(set(case['sigs'])) > 1)
+
+    def cb(ans):
+        for a, (case, o) in zip(ans, obs):
+            got = {'alias': 'exc' not in o['old'], 'new': 'exc' not in o['new']}
+            if got != {'alias': a.get('alias'), 'new': a.get('new')}:
+                res.diverge('which calls the old / the new name accept (signatures of the generated replacements)', {'hierarchy': case, 'call': o['call']},
+                            a, {**got, 'old_exc': o['old'].get('exc'), 'new_exc': o['new'].get('exc')}, where='deprecated.deprecated wrapper')
 
     ctx.batch.add_many(reqs, cb)
 
@@ -2464,8 +2624,8 @@ def check_kw_model(ctx, res, n):
 # --------------------------------------------------------------------------- check
 
 
-def run_side_isolated(at, side, seed):
-    out = core.run_isolated('props.c20', 'isolated_single', {'at': at, 'side': side, 'seed': seed}, timeout=600)
+def run_side_isolated(at, side, seed, all_forms=False):
+    out = core.run_isolated('props.c20', 'isolated_single', {'at': at, 'side': side, 'seed': seed, 'all_forms': all_forms}, timeout=600)
     if '__error__' in out:
         first = (out.get('stderr') or '').strip().splitlines()
         return {'exc': 'process died ' + out['__error__'], 'exc_text': mask_text(' '.join(first[-2:]))[:160] if first else '', 'dep': [], 'other_warnings': [],
@@ -2486,6 +2646,8 @@ def run_workers(ctx, res, T, seed, only=None, twice_all=False):
         m['both_raise'] += e['both_raise']
         m['mismatch'] += e['mismatch']
         m['skipped'] = m['skipped'] or e['skipped']
+        if e.get('forms'):
+            m['forms'] = m.get('forms', []) + e['forms']
         if e.get('second_calls'):
             m['second_calls'] = m.get('second_calls', 0) + e['second_calls']
         if e.get('repeated'):
@@ -2526,7 +2688,7 @@ def run_workers(ctx, res, T, seed, only=None, twice_all=False):
         res.tally('worker_retired_after_engine_error' if poisoned is not None else 'worker_killed_by_the_engine')
         i, ri, si = at
         res.notes.append(f'engine {"raised" if poisoned is not None else "killed the interpreter"} in {S[i]["cls"].split(".")[-1]}.{S[i]["old"]} (receiver {ri}, arguments {si})')
-        sides = {side: run_side_isolated(at, side, seed) for side in ('old', 'new')}
+        sides = {side: run_side_isolated(at, side, seed, bool(twice_all or only is not None)) for side in ('old', 'new')}
         m = merged.setdefault(i, {'calls': 0, 'both_raise': 0, 'mismatch': [], 'skipped': None})
         m['calls'] += 1
         if 'exc' in sides['old'] and 'exc' in sides['new']:
@@ -2549,7 +2711,8 @@ def check(ctx) -> Result:
     res = Result(rule=RULE, tolerance='exact after canonicalisation (same code path on both sides)')
     T = getattr(ctx, 'table', None) or gather()
     # (C2) the wrapper model on generated hierarchies
-    for stream, n_ in ((check_wrapper_model, ctx.n(300, 6000)), (check_world_model, ctx.n(250, 5000)), (check_kw_model, ctx.n(200, 4000))):
+    for stream, n_ in ((check_wrapper_model, ctx.n(300, 6000)), (check_signature_model, ctx.n(200, 4000)), (check_world_model, ctx.n(250, 5000)),
+                       (check_kw_model, ctx.n(200, 4000))):
         try:
             stream(ctx, res, n_)
         except Exception:  # noqa: BLE001  (a wrapper behaving outside what the stream expects: reported, the other streams still run)
@@ -2576,6 +2739,8 @@ def check(ctx) -> Result:
             else:
                 uncovered.append((s['cls'], s['old'], m['skipped']))
             continue
+        for f_ in m.get('forms', []):
+            res.tally('slot_calls_in_argument_form:' + f_)
         if m.get('second_calls'):
             res.tally('slot_calls_followed_by_a_second_call_on_the_same_receiver', m['second_calls'])
         if m.get('repeated'):
